@@ -279,7 +279,7 @@ var (
 	ggStrs   = []string{"", "a", "llama", "model", "{{ .Prompt }}", "adapter", "projector", "x y z", "0123456789abcdef0123456789abcdef", "é世"}
 	ggTNames = []string{"token_embd.weight", "blk.0.attn_q.weight", "blk.1.ffn_gate.weight", "output.weight", "v.class_embd", "mm.0.weight", "rope_freqs.weight", "blk.0.ffn_gate_exps.weight", "t", "blk", "v.mm", "blk.7"}
 	// kind, elements per block, bytes per block
-	ggKinds = [][3]uint64{{0, 1, 4}, {1, 1, 2}, {2, 32, 18}, {8, 32, 34}, {12, 256, 144}, {30, 1, 2}, {24, 1, 1}, {14, 256, 210}}
+	ggKinds  = [][3]uint64{{0, 1, 4}, {1, 1, 2}, {2, 32, 18}, {8, 32, 34}, {12, 256, 144}, {30, 1, 2}, {24, 1, 1}, {14, 256, 210}}
 	ggIntSet = []uint64{0, 1, 2, 7, 32, 255, 256, 4096, 65535, 1 << 31, 1<<32 - 1, 1<<63 - 1, 1<<64 - 1}
 	ggFltSet = []float64{0, 1, -2.5, 1e-5, 10000}
 	// every value type of the format
